@@ -32,3 +32,7 @@ def run(ctx):
 
 def replay(ctx, path):
     return c04.replay_prop(ctx, "C05", path)
+
+
+def selftest(ctx):
+    return c04.selftest_prop(ctx, "C05")
